@@ -483,7 +483,8 @@ Definition preds_class (cd : classdef) (vs : list N) : list (N -> bool) := map (
 Definition preds_cov (cs : list coverage) : list (N -> bool) :=
   map (fun cv g => match coverage_index cv g with Some _ => true | None => false end) cs.
 
-(* apply_context; concat_on_fail: format 3 calls unsafe_to_concat(idx, match_end) when the input fails *)
+(* apply_context; concat_on_fail: unsafe_to_concat(idx, match_end) when the input fails - every format since /repo
+   a48a496 (before that fix only format 3 did; the parameter is kept so that the lemmas stay general) *)
 Definition apply_context (f : font) (e : lenv) (props : N) (rec : recurse_t) (concat_on_fail : bool)
            (preds : list (N -> bool)) (recs : list seq_lookup) (c : actx) : result (bool * actx) :=
   do m <- match_input f e props (buf c) preds;
@@ -505,7 +506,8 @@ Definition apply_chain_context (f : font) (e : lenv) (props : N) (rec : recurse_
   do m <- match_input f e props b inp;
   let fail_la (end_index : nat) := do b' <- utc b (dead b) end_index; Ok (false, with_buf c b') in
   match m with
-  | MIfail _ => fail_la (dead b)
+  (* on an input mismatch end_index = match_end when that lies beyond idx (since /repo cce4fb5; before, idx) *)
+  | MIfail en => fail_la (match en with Some x => if (dead b <? x)%nat then x else dead b | None => dead b end)
   | MIok ps match_end _ =>
     match match_lookahead f e props b ahead match_end with
     | inr end_index => fail_la end_index
@@ -565,14 +567,14 @@ Definition subtable_apply (f : font) (e : lenv) (props : N) (nest : nat) (rec : 
       do x <- cur (buf c);
       match coverage_index cov (gid x) with
       | None => Ok (false, c)
-      | Some k => first_apply (fun r => apply_context f e props rec false (preds_glyph (sr_input r)) (sr_lookups r))
+      | Some k => first_apply (fun r => apply_context f e props rec true (preds_glyph (sr_input r)) (sr_lookups r))
                               (match nth_error rule_sets (N.to_nat k) with Some l => l | None => [] end) c
       end
   | SContext2 cov cd rule_sets =>
       do x <- cur (buf c);
       match coverage_index cov (gid x) with
       | None => Ok (false, c)
-      | Some _ => first_apply (fun r => apply_context f e props rec false (preds_class cd (sr_input r)) (sr_lookups r))
+      | Some _ => first_apply (fun r => apply_context f e props rec true (preds_class cd (sr_input r)) (sr_lookups r))
                               (opt_rules (nth_error rule_sets (N.to_nat (class_of cd (gid x))))) c
       end
   | SContext3 covs recs =>
